@@ -398,7 +398,7 @@ def cv_owners(w, home):
 PLANS['C04'] = dict(
     rule=RULE_B + RULE_A + 'non-trivial = at least one wait of the execution slept (a waiter was really on the queue when the wake-up was issued).',
     groups=[
-        G('cv_tokens', 'c-plain', 'B', 10, 3000, owners=cv_owners),
+        G('cv_tokens', 'c-plain', 'B', 14, 20000, thorough=80000, owners=cv_owners),
         G('cv_tokens', 'c-plain', 'A', 4, 600, thorough=20000, owners=cv_owners),
         G('mu_mix', 'c-plain', 'B', 2, 2000, **MU),
         G('cv_tokens', 'c-asan', 'B', 2, 1500, owners=cv_owners),
